@@ -289,3 +289,72 @@ Section TrackOp.
           intro j. apply ist_iset_other. discriminate.
   Qed.
 End TrackOp.
+
+(* ---- events the monitor of a scope only records in its image ---- *)
+Definition skips (sc : scope) (m : mst) (e : event) : Prop :=
+  match e with
+  | EvWrite o st n ok _ =>
+      (forall g i, tracked g = true -> o <> act_obj sc g i) /\ o <> OPlan /\ (o = scope_obj sc -> st <> Running)
+  | EvStart a => other_of sc a = false \/ k_runs (m_def m) = 0
+  | EvEnd a o => other_of sc a = false \/ is_overrun o = true \/ k_runs (m_def m) = 0
+  | EvRead _ => True
+  | EvRelease _ => False
+  end.
+
+Definition m_after (m : mst) (e : event) : mst :=
+  match e with
+  | EvWrite o st n ok _ => m_skip m o (cell_of st n ok)
+  | _ => m
+  end.
+
+Lemma with_img_same m : with_img m (m_img m) = m.
+Proof. now destruct m. Qed.
+
+Lemma skip_step sh sc m e : skips sc m e -> mstep_d sh sc m e = inl (m_after m e).
+Proof.
+  destruct e as [a|a o|o st n ok r|snap|fin]; simpl; try tauto.
+  - intros [H|H]; rewrite H; auto. now rewrite andb_false_r.
+  - intros [H|[H|H]]; rewrite H; auto; now rewrite ?andb_false_r.
+  - intros (Ht & Np & Hs). unfold m_skip, img_after, cell_of.
+    destruct (cell_eqb (iget (m_img m) o) {| c_st := st; c_n := n; c_ok := ok |}); [now rewrite with_img_same|].
+    destruct o as [|sc' g|b|b q|[sc' g i|b q i]].
+    + now elim Np.
+    + destruct sc; reflexivity.
+    + destruct sc; simpl; auto. destruct (Nat.eqb b b0) eqn:E; auto. apply Nat.eqb_eq in E. subst b0.
+      destruct (status_eqb st Running) eqn:Es; auto. apply status_eqb_eq in Es. now elim (Hs eq_refl).
+    + destruct sc; reflexivity.
+    + destruct (scope_eqb sc sc') eqn:Es; simpl; auto. apply scope_eqb_eq in Es. subst sc'.
+      destruct (tracked g) eqn:Tg; auto. now elim (Ht g i Tg).
+    + destruct sc; reflexivity.
+Qed.
+
+Lemma m_after_fields m e :
+  m_started (m_after m e) = m_started m /\ m_rel (m_after m e) = m_rel m /\ m_reason (m_after m e) = m_reason m
+  /\ (forall g, m_track (m_after m e) g = m_track m g).
+Proof.
+  destruct e; simpl; auto.
+Qed.
+
+Lemma m_after_img m e si :
+  (forall o, iget (m_img m) o = iget si o) -> forall o, iget (m_img (m_after m e)) o = iget (ev_img e si) o.
+Proof.
+  intros H. destruct e as [a|a o|o st n ok r|snap|fin]; simpl; auto. apply img_sync. exact H.
+Qed.
+
+(* the automaton's image after an event differs only at the object written *)
+Lemma ev_img_other e im o' :
+  (forall st n ok r, e <> EvWrite o' st n ok r) -> iget (ev_img e im) o' = iget im o'.
+Proof.
+  destruct e as [a|a o|o st n ok r|snap|fin]; simpl; auto. intro H.
+  apply iget_iset_other. intro Q. subst. now elim (H st n ok r).
+Qed.
+
+Lemma common_after s s' m e :
+  common s m -> s_img s' = ev_img e (s_img s) -> s_reason s' = s_reason s -> released s' = released s ->
+  common s' (m_after m e).
+Proof.
+  intros [C1 C2 C3] Ei Er El. destruct (m_after_fields m e) as (_ & F2 & F3 & _). constructor.
+  - rewrite Ei. now apply m_after_img.
+  - congruence.
+  - congruence.
+Qed.
